@@ -35,7 +35,7 @@ def plan(tier):
 
 def required(tier):
     return ["all_records_known_contig", "some_records_unknown", "plain_output", "bgzip_output",
-            "explicit_outind", "entries_verified", "multi_chromosome"] + (["bgzip_multi_block"] if tier == "thorough" else [])
+            "explicit_outind", "entries_verified", "multi_chromosome", "bgzip_multi_block"]
 
 
 def setup(ctx):
@@ -47,9 +47,11 @@ def run_case(ctx, rng, index, casedir):
     viol = []
     all_known = rng.random() < 0.5
     hi = 300 if ctx.tier == "quick" else rng.choice([300, 1500, 5000])
-    w = SC.build(rng, casedir, index, nrec=rng.choice([1, 3, rng.randint(4, 40), rng.randint(40, hi)]),
-                 force_all_known=all_known, n_chrom=rng.choice([1, 2, 3, 4]),
-                 tags=rng.choice(["safe", "safe", ["zl:Z:" + "y" * 700]]) if ctx.tier == "thorough" else "safe")
+    bigout = index % 7 == 5  # output larger than one 64 KiB BGZF block (long optional fields)
+    w = SC.build(rng, casedir, index, nrec=rng.randint(120, 300) if bigout else rng.choice([1, 3, rng.randint(4, 40), rng.randint(40, hi)]),
+                 force_all_known=all_known, n_chrom=rng.choice([2, 3, 4]) if bigout else rng.choice([1, 2, 3, 4]),
+                 tags=["zl:Z:" + "y" * rng.choice([300, 700, 1500])] if bigout else
+                 (rng.choice(["safe", "safe", ["zl:Z:" + "y" * 700]]) if ctx.tier == "thorough" else "safe"))
     M.CTX["sort"] = (w.g, w.tags)
     keys = [SC.ref_tags(w.g, w.tags, l) for l in w.lines]
     sns = [k["sn"] for k in keys]
@@ -59,7 +61,7 @@ def run_case(ctx, rng, index, casedir):
         sit["all_records_known_contig"] += 1
     if len(set(sns) - {"unknown"}) >= 2:
         sit["multi_chromosome"] += 1
-    bgz = rng.random() < 0.5
+    bgz = rng.random() < 0.5 or bigout
     out = os.path.join(casedir, "sorted.gaf" + (".gz" if bgz else ""))
     argv = ["sort", w.gaf, w.gfa, "--outgaf", out]
     ind = out + ".gsi"
@@ -129,16 +131,19 @@ def run_case(ctx, rng, index, casedir):
                                                            f"first/last record of the contig start at {pos[members[0]]}/{pos[members[-1]]}",
                              "witness": wit})
             if bgz:  # through the real reader as well
-                rd = libcbgzf.BGZFile(out, "rb")
                 for off, i in ((first, members[0]), (last, members[-1])):
+                    rd = libcbgzf.BGZFile(out, "rb")  # a fresh reader per seek: a bad offset poisons the handle
                     try:
                         rd.seek(off)
-                        got = rd.readline().decode().rstrip("\n")
+                        got = rd.readline().decode(errors="replace").rstrip("\n")
                     except Exception as e:  # noqa: BLE001
                         got = f"<{type(e).__name__}: {e}>"
+                    try:
+                        rd.close()
+                    except OSError:
+                        pass
                     if got != lines[i]:
                         viol.append({"kind": "index_seek_pysam", "msg": f"contig {c}: seeking to {off} reads {got[:60]!r}, expected record {lines[i][:60]!r}"})
-                rd.close()
             if any(not (pos[members[0]] <= pos[i] <= pos[members[-1]]) for i in members):
                 viol.append({"kind": "record_outside_range", "msg": f"contig {c}: a record lies outside [first,last]"})
         nontrivial = len(contigs) >= 2 or any(out_sn.count(c) >= 2 for c in contigs)
